@@ -64,4 +64,38 @@ theorem decimal_consts :
 theorem dom_is_min_max (d : Dec) :
     (Dec.MIN.coeff ≤ d.coeff ∧ d.coeff ≤ Dec.MAX.coeff ∧ d.nfrac ≤ Dec.DELTA.nfrac) ↔ Dom d := Kernels.dom_is_min_max d
 
+/-! ### algebraic laws
+Model-level corollaries about the model functions themselves. -/
+
+/-- integer round trip: `T::try_from(Decimal::from(i)) = Ok(i)` for every integer `i` of the type `T` — any integer type
+    descriptor, in particular the nine types with `From<T> for Decimal` (u8 … u64, i8 … i128) -/
+theorem int_round_trip (t : IntTy) (i : Int) (hi : t.fits i = true) : intoInt t (fromInt i) = .ok (.ok i) := by
+  unfold intoInt intoI128 fromInt
+  simp [hi]
+
+/-- … and a value that is not in the target type is rejected with `ValueOutOfRange` (conversion to a narrower type) -/
+theorem int_round_trip_out_of_range (t : IntTy) (i : Int) (hi : t.fits i = false) :
+    intoInt t (fromInt i) = .ok (.error .outOfRange) := by
+  unfold intoInt intoI128 fromInt
+  simp [hi]
+
+/-- `u128` (fallible in both directions): `u128::try_from(Decimal::try_from(i)?) = Ok(i)`; the first step fails exactly above
+    `i128::MAX` -/
+theorem u128_round_trip (i : Nat) (hi : (i : Int) < 340282366920938463463374607431768211456) :
+    (tryFromU128 i).map (intoInt IntTy.u128) = if (i : Int) ≤ I128_MAX then some (.ok (.ok (i : Int))) else none := by
+  have hf : IntTy.u128.fits (i : Int) = true := by
+    have e : (2 : Int) ^ 128 = 340282366920938463463374607431768211456 := by decide
+    simp only [IntTy.fits, IntTy.min, IntTy.max, IntTy.u128, Bool.false_eq_true, if_false, e]
+    simp; omega
+  unfold tryFromU128
+  split
+  · simp only [Option.map_some]
+    exact congrArg some (int_round_trip IntTy.u128 i hf)
+  · rfl
+
+example : intoInt IntTy.i8 (fromInt (-128)) = .ok (.ok (-128)) ∧ intoInt IntTy.u64 (fromInt 18446744073709551615) = .ok (.ok 18446744073709551615) ∧
+    intoInt IntTy.i128 (fromInt I128_MIN) = .ok (.ok I128_MIN) ∧ intoInt IntTy.u8 (fromInt 256) = .ok (.error .outOfRange) := by decide
+example : (tryFromU128 12345678901234567890123).map (intoInt IntTy.u128) = some (.ok (.ok 12345678901234567890123)) ∧
+    tryFromU128 (2 ^ 127) = none := by decide
+
 end Fpdec.Props.C14
